@@ -129,6 +129,7 @@ def ast_eval_exec_factory(ast_ctx, mode):
                 eval_ast.sym_table = eval_globals
         else:
             eval_ast.sym_table_stack = ast_ctx.sym_table_stack.copy()
+            eval_ast.func_stack_base = ast_ctx.func_stack_base
             if ast_ctx.sym_table == ast_ctx.global_sym_table:
                 eval_ast.sym_table = ast_ctx.sym_table
             else:
@@ -709,7 +710,13 @@ class EvalFunc:
                 if var_name in self.enclosing_global_names:
                     # declared global in an enclosing function, so it is global here too
                     continue
-            for sym_table in reversed(ast_ctx.sym_table_stack[sym_table_idx:] + [ast_ctx.sym_table]):
+            #
+            # only look in the scopes that lexically enclose this definition: the frames of the
+            # function call that is executing it (its own, plus any class bodies it is inside),
+            # not the frames of whoever called that function
+            #
+            first_idx = max(sym_table_idx, ast_ctx.func_stack_base)
+            for sym_table in reversed(ast_ctx.sym_table_stack[first_idx:] + [ast_ctx.sym_table]):
                 if var_name in sym_table and isinstance(sym_table[var_name], EvalLocalVar):
                     self.local_sym_table[var_name] = sym_table[var_name]
                     self.closure_names.add(var_name)
@@ -819,6 +826,8 @@ class EvalFunc:
         else:
             ast_ctx.sym_table_stack.append(ast_ctx.sym_table)
             prev_sym_table = None
+        prev_stack_base = ast_ctx.func_stack_base
+        ast_ctx.func_stack_base = len(ast_ctx.sym_table_stack)
         ast_ctx.sym_table = sym_table
         code_str, code_list = ast_ctx.code_str, ast_ctx.code_list
         ast_ctx.code_str, ast_ctx.code_list = self.code_str, self.code_list
@@ -836,6 +845,7 @@ class EvalFunc:
             return None
         finally:
             ast_ctx.curr_func = prev_func
+            ast_ctx.func_stack_base = prev_stack_base
             ast_ctx.user_locals = save_user_locals
             ast_ctx.code_str, ast_ctx.code_list = code_str, code_list
             if prev_sym_table is not None:
@@ -944,6 +954,8 @@ class AstEval:
         self.global_ctx = global_ctx
         self.global_sym_table: SymTable = global_ctx.get_global_sym_table() if global_ctx else {}
         self.sym_table_stack: list[SymTable] = []
+        # index in sym_table_stack of the first frame that belongs to the function call being executed
+        self.func_stack_base: int = 0
         self.sym_table = self.global_sym_table
         self.local_sym_table: SymTable = {}
         self.user_locals: SymTable = {}
